@@ -17,8 +17,8 @@ func VfH_c12() {
 func vfC12Run(fn string, x uint64) {
 	h1, h4 := vfC11Load("c11n"), vfC11Load("c11n")
 	a0, f0 := vfWasmGlobal(h1, "vf_allocs"), vfWasmGlobal(h1, "vf_frees")
-	_, t1 := vfWasmCall(h1, fn, 3, x)
-	_, t4 := vfWasmCall(h4, fn, 7, x)
+	_, t1 := vfWasmCall(h1, fn, 6, x)
+	_, t4 := vfWasmCall(h4, fn, 12, x)
 	vfAssert(!t1 && !t4, "c12/loop-does-not-trap")
 	if t1 || t4 {
 		return
